@@ -78,6 +78,8 @@ package dns
 //@   assert at "_, err = w.writer.Write(data)@2" packdata: same(data, callres("Pack", 0))
 //@   stored at "data, w.tsigRequestMAC, err = TsigGenerateWithProvider(m, w.tsigProvider, w.tsigRequestMAC, w.tsigTimersOnly)" mac: value == callres("TsigGenerateWithProvider", 1)
 //@   exit err: !called("Write") ==> ret0 != nil
+// RFC 8945 5.3.1: the MAC just generated is the prior MAC of the next envelope, in every mode
+//@   assert at "_, err = w.writer.Write(data)@1" macnext: same(w.tsigRequestMAC, callres("TsigGenerateWithProvider", 1)) [C11 C15]
 
 // the convenience wrappers: the message goes out on the connection just dialled (or given), the reply read from it
 // is the one returned, and (ExchangeConn) a reply with another ID is ErrId
